@@ -7,6 +7,14 @@ EXTENDS ClientMux, Json
 ScriptA == [s \in Senders |-> IF s = "s1" THEN <<"a", "b">> ELSE <<"a">>]
 ScriptB == [s \in Senders |-> IF s = "s1" THEN <<"a", "b", "a">> ELSE <<"c", "a">>]
 GNext == Internal \/ Observable
+\* a conformant client: answers only requests it has received and that are still waiting for their answer, and
+\* leaves when its stdin ends - long fault-free runs, in which a name is sent again after it was answered
+PoliteNext == \/ Internal
+              \/ \E s \in Senders : SendCall(s) \/ SendRet(s)
+              \/ ReadCall \/ ReadRet
+              \/ (\E n \in inbox \cap pending : WriteCall("resp", n)) \/ WriteRet
+              \/ (closedSend /\ wif = NoW /\ Exit(FALSE))
+              \/ CbStep \/ CloseCall \/ CloseRet \/ WaitCall \/ WaitRet
 AtEnd == SendersDone /\ wpc = "ret" /\ cpc = "exited" /\ pdone
 Emit == AtEnd => PrintT("SCN " \o ToJson([hist |-> hist]))
 =============================================================================
